@@ -18,10 +18,13 @@ sort; the four planner theorems are proved for every population of at most 65536
 `plan_moves_whole_frozen_sources`, `plan_sources_moved_once`, `plan_total_truthful`).
 -/
 import Cascette.Proofs.Compaction
+import Cascette.Proofs.CompactionU64
 import Cascette.Proofs.CompactionPlan
+import Cascette.Proofs.CompactionExec
 namespace Cascette.Props.C18
 open Cascette Cascette.Spec.Compaction Cascette.Model.Compaction
-open Cascette.Proofs.Compaction Cascette.Proofs.CompactionPlan
+open Cascette.Proofs.Compaction Cascette.Proofs.CompactionU64 Cascette.Proofs.CompactionPlan
+open Cascette.Proofs.CompactionExec
 
 /-! ## span validation -/
 
@@ -88,38 +91,19 @@ theorem chunked_move_data_safe (buf : Nat) (hbuf : 0 < buf) (s d : Bytes)
     moveLoop buf hbuf s d so dof len moved = (writeAt d dof (slice s so len), moved + len, true) :=
   moveLoop_spec buf hbuf s d so dof len moved hpos hb
 
-/-! ## extract-compact
+/-! ## extract-compact (after the repair of the empty-list early return, commit 79c672c) -/
 
-FULL STATEMENT (what the property says; FALSE on the tree for `spans = []`, see
-`compact_empty_set_counterexample`; finding `empty-span-set-noop`):
-
-  theorem compact_eq_concat_live (m f spans t) (hd : Disjoint spans)
-      (hb : InBounds f.length spans) (hp : t.Perm spans) (ho : OffsetOrdered t) :
-      extractCompact m f spans = ⟨concatLive f t, some (f.length - (concatLive f t).length)⟩
--/
-
-/-- counter-witness to the full statement: with NO live span the one-byte file is kept and
-0 bytes are reported saved, where the property asks for the empty concatenation (1 byte saved). -/
-theorem compact_empty_set_counterexample (m : Mover) :
-    extractCompact m [0x2a] [] ≠ ⟨concatLive [0x2a] [], some (1 - (concatLive [0x2a] []).length)⟩ := by
-  intro h
-  have := congrArg XcOut.file h
-  simp [extractCompact, concatLive] at this
-
-/-- exactly what the code does with an empty span list: nothing (explicit early return). -/
-theorem compact_empty_set_noop (m : Mover) (f : Bytes) : extractCompact m f [] = ⟨f, some 0⟩ := rfl
-
-/-- for every file, every mover (budget), every NON-EMPTY span list that is pairwise
-non-overlapping and inside the file — given in any order, with adjacent, gapped, zero-length
-spans, spans starting after offset 0, spans longer than the buffer — the call succeeds, the file
-becomes the spans' ORIGINAL bytes concatenated in offset order (`t` is any arrangement of the
-spans that is non-decreasing in offset), and the reported saving is the original length minus
-the new length. -/
-theorem compact_eq_concat_live_partial (m : Mover) (f : Bytes) (spans t : List Span)
-    (hne : spans ≠ []) (hd : Disjoint spans) (hb : InBounds f.length spans)
+/-- THE FULL STATEMENT: for every file, every mover (budget), every span list that is pairwise
+non-overlapping and inside the file — given in any order, EMPTY, with adjacent, gapped,
+zero-length spans, spans starting after offset 0, spans longer than the buffer — the call
+succeeds, the file becomes the spans' ORIGINAL bytes concatenated in offset order (`t` is any
+arrangement of the spans that is non-decreasing in offset), and the reported saving is the
+original length minus the new length. -/
+theorem compact_eq_concat_live (m : Mover) (f : Bytes) (spans t : List Span)
+    (hd : Disjoint spans) (hb : InBounds f.length spans)
     (hp : t.Perm spans) (ho : OffsetOrdered t) :
     extractCompact m f spans = ⟨concatLive f t, some (f.length - (concatLive f t).length)⟩ := by
-  obtain ⟨he, _⟩ := extractCompact_ok m f spans hne hd hb
+  obtain ⟨he, _⟩ := extractCompact_ok m f spans hd hb
   have hv : (validateSpans spans).2 = true := (validate_ok_iff spans).2 hd
   have hperm := validate_perm spans
   have hdt : Disjoint t := (hp.pairwise_iff (fun h => overlaps_symm h)).2 hd
@@ -128,10 +112,61 @@ theorem compact_eq_concat_live_partial (m : Mover) (f : Bytes) (spans t : List S
   have hbt : InBounds f.length t := fun s hs => hb s (hp.subset hs)
   rw [he, hcl, ← hcl, concatLive_length f t hbt, sumLen_perm hp]
 
+/-- the former witness of finding `empty-span-set-noop` (corpus/C18/empty-span-set.case), now an
+instance of the full statement: with NO live span every file is cut to nothing and its whole
+length is reported saved — exactly what a single zero-length span does. -/
+theorem compact_empty_set_truncates (m : Mover) (f : Bytes) (o : Nat) :
+    extractCompact m f [] = ⟨[], some f.length⟩ ∧
+    extractCompact m f [⟨o, 0⟩] = extractCompact m f [] := by
+  have h0 : extractCompact m f [] = ⟨[], some f.length⟩ := by
+    have := compact_eq_concat_live m f [] [] List.Pairwise.nil (fun _ h => nomatch h)
+      (List.Perm.refl _) List.Pairwise.nil
+    simpa [concatLive] using this
+  refine ⟨h0, ?_⟩
+  rw [h0]
+  have key : ∀ (g : Bytes) (mm : Mover), compactInPlace mm g o 0 0 = (g, mm, true) ∨ o = 0 := by
+    intro g mm
+    by_cases ho : o = 0
+    · exact Or.inr ho
+    · left
+      unfold compactInPlace
+      rw [if_neg ho]
+      unfold copyLoop
+      rfl
+  unfold extractCompact validateSpans
+  simp only [List.length_singleton, Nat.le_refl, if_true]
+  unfold compactLoop
+  by_cases ho : o > 0
+  · rw [if_pos ho]
+    rcases key f m with hk | hk
+    · rw [hk]
+      simp only [compactLoop, Nat.zero_add, Nat.sub_zero]
+      by_cases hl : f.length > 0
+      · rw [if_pos hl]; simp [setLen]
+      · rw [if_neg hl]
+        have : f = [] := List.eq_nil_of_length_eq_zero (by omega)
+        subst this; rfl
+    · omega
+  · rw [if_neg ho]
+    simp only [compactLoop, Nat.zero_add, Nat.sub_zero]
+    by_cases hl : f.length > 0
+    · rw [if_pos hl]; simp [setLen]
+    · rw [if_neg hl]
+      have : f = [] := List.eq_nil_of_length_eq_zero (by omega)
+      subst this; rfl
+
+/-- (kept name, now a corollary of `compact_eq_concat_live`) the statement for NON-EMPTY lists,
+which is what could be proved before the repair. -/
+theorem compact_eq_concat_live_partial (m : Mover) (f : Bytes) (spans t : List Span)
+    (_hne : spans ≠ []) (hd : Disjoint spans) (hb : InBounds f.length spans)
+    (hp : t.Perm spans) (ho : OffsetOrdered t) :
+    extractCompact m f spans = ⟨concatLive f t, some (f.length - (concatLive f t).length)⟩ :=
+  compact_eq_concat_live m f spans t hd hb hp ho
+
 /-- live bytes are never more than the file: the concatenation fits. -/
-theorem live_bytes_fit (m : Mover) (f : Bytes) (spans : List Span) (hne : spans ≠ [])
+theorem live_bytes_fit (m : Mover) (f : Bytes) (spans : List Span) (_hne : spans ≠ [])
     (hd : Disjoint spans) (hb : InBounds f.length spans) : sumLen spans ≤ f.length :=
-  (extractCompact_ok m f spans hne hd hb).2
+  (extractCompact_ok m f spans hd hb).2
 
 /-- for EVERY span list (also out-of-bounds or empty ones): whenever the call returns
 `Ok(saved)`, `saved` is exactly the number of bytes by which the file shrank, and the file never
@@ -140,6 +175,103 @@ theorem bytes_saved_truthful (m : Mover) (f : Bytes) (spans : List Span) (f' : B
     (h : extractCompact m f spans = ⟨f', some saved⟩) :
     saved = f.length - f'.length ∧ f'.length ≤ f.length :=
   extractCompact_saved m f spans f' saved h
+
+/-! ## `u64` arithmetic: the code as compiled (after the `checked_add` guard, commit 5594e7b)
+
+`validateSpansU64` / `extractCompactU64` perform every addition of the Rust text
+(`DataSpan::end`, `write_pos += length`, `src_pos += chunk`, `dest_pos += chunk`) modulo 2^64.
+No range hypothesis on the spans below: they hold for EVERY pair of `u64` (indeed every `Nat`). -/
+
+/-- `validate_spans` as compiled accepts exactly the lists in which no span's end leaves `u64`
+and no two spans overlap (true, unbounded overlap — not the wrapped one). -/
+theorem validate_u64_iff (spans : List Span) :
+    (validateSpansU64 spans).2 = true ↔ NoOverflow spans ∧ Disjoint spans := by
+  by_cases h : NoOverflow spans
+  · rw [validateSpansU64_eq spans h, validate_ok_iff]
+    exact ⟨fun hd => ⟨h, hd⟩, fun hd => hd.2⟩
+  · rw [validateSpansU64_overflow spans h]
+    constructor
+    · intro hf; cases hf
+    · intro hd; exact absurd hd.1 h
+
+/-- a list with an overflowing span, or with two overlapping spans, is refused and the file is
+left exactly as it was — for every file, mover and list. (On the pinned tree the wrapped `end()`
+let such lists through: `pinned_wrapping_scan_accepts_overlap`.) -/
+theorem overflowing_or_overlapping_refused (m : Mover) (f : Bytes) (spans : List Span)
+    (h : ¬ (NoOverflow spans ∧ Disjoint spans)) : extractCompactU64 m f spans = ⟨f, none⟩ := by
+  by_cases hn : NoOverflow spans
+  · rw [extractCompactU64_eq m f spans hn]
+    exact extractCompact_refuse m f spans (fun hd => h ⟨hn, hd⟩)
+  · exact extractCompactU64_overflow m f spans hn
+
+/-- behind the guard NO `u64` addition of `validate_spans` / `extract_compact_segment` /
+`compact_in_place` wraps (release) or panics (debug): the code as compiled computes exactly what
+the `Nat` model computes, so every theorem of this file about `extractCompact` is a theorem about
+the compiled code. This discharges the former assumption `offset + length < 2^64`. -/
+theorem extract_u64_refines_nat (m : Mover) (f : Bytes) (spans : List Span) :
+    extractCompactU64 m f spans =
+      if spans.any Span.overflows then ⟨f, none⟩ else extractCompact m f spans := by
+  cases h : spans.any Span.overflows with
+  | false =>
+    rw [extractCompactU64_eq m f spans ((any_overflows_false_iff spans).1 h)]
+    rfl
+  | true =>
+    rw [extractCompactU64_overflow m f spans
+      (fun hn => by rw [(any_overflows_false_iff spans).2 hn] at h; cases h)]
+    rfl
+
+/-- the property's extract clause for the code as compiled: a file shorter than 2^64 bytes
+(`metadata().len()` is a `u64`) and any pairwise non-overlapping in-bounds span list. -/
+theorem compact_eq_concat_live_u64 (m : Mover) (f : Bytes) (spans t : List Span)
+    (hf : f.length < 2 ^ 64) (hd : Disjoint spans) (hb : InBounds f.length spans)
+    (hp : t.Perm spans) (ho : OffsetOrdered t) :
+    extractCompactU64 m f spans = ⟨concatLive f t, some (f.length - (concatLive f t).length)⟩ := by
+  have hn : NoOverflow spans := fun s hs => by
+    have := hb s hs
+    unfold Span.stop at this
+    omega
+  rw [extractCompactU64_eq m f spans hn]
+  exact compact_eq_concat_live m f spans t hd hb hp ho
+
+/-- `bytes_saved_truthful` for the code as compiled, every span list. -/
+theorem bytes_saved_truthful_u64 (m : Mover) (f : Bytes) (spans : List Span) (f' : Bytes)
+    (saved : Nat) (h : extractCompactU64 m f spans = ⟨f', some saved⟩) :
+    saved = f.length - f'.length ∧ f'.length ≤ f.length := by
+  by_cases hn : NoOverflow spans
+  · rw [extractCompactU64_eq m f spans hn] at h
+    exact extractCompact_saved m f spans f' saved h
+  · rw [extractCompactU64_overflow m f spans hn] at h
+    cases h
+
+/-- WITNESS (pinned tree, before the guard): the wrapping scan accepts the sorted list
+`[(2^63, 2^63+10), (2^63+5, 1)]` although the second span lies inside the first — `end()` of the
+first wraps to 10. Replayed on the real code by corpus/C18/u64-wrap-overlap.case (refused now). -/
+theorem pinned_wrapping_scan_accepts_overlap :
+    let a : Span := ⟨2 ^ 63, 2 ^ 63 + 10⟩
+    let b : Span := ⟨2 ^ 63 + 5, 1⟩
+    Model.Compaction.Span.le a b = true ∧ adjacentOkW [a, b] = true ∧ a.overlaps b = true ∧
+    (validateSpansU64 [a, b]).2 = false := by
+  refine ⟨by decide, by decide, by decide, ?_⟩
+  have : ¬ NoOverflow [⟨2 ^ 63, 2 ^ 63 + 10⟩, ⟨2 ^ 63 + 5, 1⟩] := fun h => by
+    have := h ⟨2 ^ 63, 2 ^ 63 + 10⟩ List.mem_cons_self
+    simp only at this
+    omega
+  rw [validateSpansU64_overflow _ this]
+
+/-- WITNESS (pinned tree): without the guard the "live" list `[(0, 2^63), (2^63, 2^63)]` (sorted,
+no pair overlapping, no data to move) wraps `write_pos` to 0, after which the pinned code
+truncated the whole file to 0 bytes and answered `Ok(len)`; now it is refused
+(corpus/C18/u64-wrap-truncate.case). -/
+theorem pinned_wrapping_write_pos_zero (m : Mover) (f : Bytes) :
+    compactLoopW m f [⟨0, 2 ^ 63⟩, ⟨2 ^ 63, 2 ^ 63⟩] 0 = (f, m, 0, true) ∧
+    extractCompactU64 m f [⟨0, 2 ^ 63⟩, ⟨2 ^ 63, 2 ^ 63⟩] = ⟨f, none⟩ := by
+  constructor
+  · simp [compactLoopW, addW]
+  · apply extractCompactU64_overflow
+    intro h
+    have := h ⟨2 ^ 63, 2 ^ 63⟩ (by simp)
+    simp only at this
+    omega
 
 /-! ## the merge planner (after the repair of the first destination cursor) -/
 
@@ -219,6 +351,55 @@ theorem plan_total_truthful (isSource : Nat → Bool) (segSize : Nat) (segs : Li
   obtain ⟨plan', h', _, _, _, ht⟩ := planMerge_spec isSource segSize segs hlen
   rw [h] at h'; cases h'
   exact ht
+
+/-! ## executing a plan: what an executor may and may not assume
+
+The crate has no executor; `execPlan` performs the moves with `move_data` in plan order (the
+harness does the same with the real `move_data` on real segment files). -/
+
+/-- MAY ASSUME. For every population, utilisation test, segment size, mover (buffer size) and
+segment files whose lengths are the write positions: executing the moves IN PLAN ORDER never
+fails, never reads a byte an earlier move has written (each move delivers its source's ORIGINAL
+bytes: `slice c dstOff len = o` with `o` the source file before the run), and never overwrites a
+byte a segment used before the run (`c.take o.length = o` for every segment, source or
+destination or both). -/
+theorem plan_execution_in_order_safe (isSource : Nat → Bool) (segSize : Nat) (segs : List Seg)
+    (hlen : segs.length ≤ 65536) (plan : Plan) (h : planMerge isSource segSize segs = some plan)
+    (m0 : Mover) (files : List Bytes) (hf : files.map List.length = segs.map Seg.used) :
+    ∃ final m', execPlan m0 files plan.moves = some (final, m') ∧ final.length = files.length ∧
+      (∀ (i : Nat) (o : Bytes), files[i]? = some o →
+        ∃ c : Bytes, final[i]? = some c ∧ c.take o.length = o) ∧
+      (∀ mv ∈ plan.moves, ∃ c o : Bytes, final[mv.dst]? = some c ∧ files[mv.src]? = some o ∧
+        slice c mv.dstOff mv.len = o ∧ mv.len = o.length) := by
+  obtain ⟨plan', h', hm, ho, _⟩ := planMerge_spec isSource segSize segs hlen
+  rw [h] at h'; cases h'
+  have hinit : Inv files files [] :=
+    ⟨rfl, fun i o hio => ⟨o, hio, List.take_length⟩, fun a ha => nomatch ha⟩
+  obtain ⟨final, m', he, hinv⟩ := exec_inv files plan.moves [] files m0 hinit
+    (fun mv hmv => moveSafe_execOk hf (hm mv hmv)) (fun a ha => nomatch ha) ho
+  rw [List.nil_append] at hinv
+  exact ⟨final, m', he, hinv.len, hinv.prefix_kept, hinv.moved⟩
+
+/-- MAY NOT ASSUME that `source_segments` and `target_segments` are disjoint, i.e. that every
+listed source segment is empty ("can be deleted") after the run. Kernel-checked witness: five
+frozen segments using 10, 20, 60, 70, 80 of 100. Segment 1 is first moved into segment 0 and —
+when segment 0 is full and the destination cursor advances — becomes the destination of
+segment 4, with the cursor after its 20 (by then stale) bytes. Deleting segment 1 after the run
+would lose segment 4's data. Not an oracle failure of C18 (no live byte is lost or overwritten by
+the moves themselves, previous theorem); reported by the run as
+`plan-segment-both-source-and-target` and replayed by corpus/C18/source-also-target.case. -/
+theorem plan_source_may_also_be_target :
+    planMerge (fun _ => true) 100 [⟨true, 10⟩, ⟨true, 20⟩, ⟨true, 60⟩, ⟨true, 70⟩, ⟨true, 80⟩] =
+      some { moves := [⟨1, 0, 0, 10, 20⟩, ⟨2, 0, 0, 30, 60⟩, ⟨4, 0, 1, 20, 80⟩], total := 160,
+             srcs := [1, 2, 4], tgts := [0, 1] } := by
+  have hs : sortSources [(0, 10), (1, 20), (2, 60), (3, 70), (4, 80)] =
+      [(0, 10), (1, 20), (2, 60), (3, 70), (4, 80)] := List.mergeSort_of_pairwise (by decide)
+  have hc : collectSources (fun _ => true)
+      [⟨true, 10⟩, ⟨true, 20⟩, ⟨true, 60⟩, ⟨true, 70⟩, ⟨true, 80⟩] 0 =
+      [(0, 10), (1, 20), (2, 60), (3, 70), (4, 80)] := by decide
+  unfold planMerge
+  simp only [hc, hs]
+  decide
 
 /-! ## `ArchiveManager::compact` — truncation to the write position -/
 
